@@ -2,6 +2,9 @@
 // (see build.rs). This file is `include!`d by build.rs and, for its unit tests, by main.rs.
 
 const LIB_HOME: &str = "crate::libsim::root::";
+/// (round 15) a third copy of the library, for the generators' own calls into it: compiled behind
+/// the generators' full shadow `std` (file system, containers, streams, threads, clock)
+const LIBGEN_HOME: &str = "crate::libgen::root::";
 const LIB_SHADOW: &str = "#[allow(unused_imports)] mod std { pub use crate::libsim::lib_std::*; } #[allow(unused_imports)] mod core { pub use crate::libsim::lib_core::*; } #[allow(unused_imports, dead_code)] mod once_cell { pub use crate::libsim::lib_once_cell::*; } ";
 
 fn lexical(p: &Path) -> PathBuf {
@@ -205,7 +208,13 @@ fn rehome_crate_paths(src: &str, gen: &str, shadow: &str) -> String {
 }
 
 fn neutralise(src: &str, gen: &str, orig_dir: &Path) -> String {
-    let shadow = if gen.starts_with("crate::") { LIB_SHADOW } else { SHADOW };
+    let shadow = if gen == LIBGEN_HOME {
+        SHADOW
+    } else if gen.starts_with("crate::") {
+        LIB_SHADOW
+    } else {
+        SHADOW
+    };
     let mut out = String::with_capacity(src.len());
     let mut in_block_doc = false;
     for line in src.split_inclusive('\n') {
@@ -247,5 +256,5 @@ fn neutralise(src: &str, gen: &str, orig_dir: &Path) -> String {
     rehome_crate_paths(&out, gen, shadow)
 }
 
-const SHADOW: &str = "#[allow(unused_imports)] mod std { pub use crate::seams::shadow_std::*; pub use crate::seams::shadow_std::env; } #[allow(unused_imports, dead_code)] mod walkdir { pub use crate::seams::shim_walkdir::*; } #[allow(unused_imports, dead_code)] mod rayon { pub use crate::seams::shim_rayon::*; } #[allow(unused_imports)] use crate::seams::{LocalKeyCellExt as _, LocalKeyRefCellExt as _}; ";
+const SHADOW: &str = "#[allow(unused_imports)] mod std { pub use crate::seams::shadow_std::*; pub use crate::seams::shadow_std::env; } #[allow(unused_imports, dead_code)] mod walkdir { pub use crate::seams::shim_walkdir::*; } #[allow(unused_imports, dead_code)] mod rayon { pub use crate::seams::shim_rayon::*; } #[allow(unused_imports)] use crate::seams::{LocalKeyCellExt as _, LocalKeyRefCellExt as _}; #[cfg(all(gens_use_libgen, feature = \"libgen\"))] #[allow(unused_imports, dead_code)] mod unic_langid_impl { pub use crate::libgen::root::*; } ";
 
